@@ -46,7 +46,9 @@ func WithGatewayIP(ip net.IP) Modifier {
 // WithOptionCopied copies the value of option opt from request.
 func WithOptionCopied(request *DHCPv4, opt OptionCode) Modifier {
 	return func(d *DHCPv4) {
-		if val := request.Options.Get(opt); val != nil {
+		// An empty value is skipped whether it is nil (as the decoder leaves
+		// a zero-length option) or an empty non-nil slice set by hand.
+		if val := request.Options.Get(opt); len(val) > 0 {
 			d.UpdateOption(OptGeneric(opt, val))
 		}
 	}
